@@ -21,6 +21,7 @@ import (
 	"fmt"
 	"os"
 	"os/exec"
+	"regexp"
 	"sort"
 	"strings"
 
@@ -31,6 +32,8 @@ import (
 )
 
 type semverT = semver.Version
+
+var uuidSegment = regexp.MustCompile(`[0-9a-f]{8}-[0-9a-f]{4}-[0-9a-f]{4}-[0-9a-f]{4}-[0-9a-f]{12}`)
 
 func migrateTo(def []byte, to string) ([]byte, error) {
 	var v *semver.Version
@@ -51,7 +54,7 @@ var familyWeights = []struct {
 	{"engine", "broadcast-translations-ok", 4}, {"engine", "legacy-extra-ties", 4}, {"engine", "legacy-extra-distinct-times", 4},
 	{"engine", "params-casevariant-get", 4}, {"engine", "template-preview-vars", 3}, {"engine", "template-preview-plain", 3},
 	{"engine", "contact-missing-fields", 4}, {"engine", "mix", 14},
-	{"migrate", "mix", 6}, {"migrate", "legacy-corpus", 3}, {"clone", "mix", 5}, {"query", "mix", 5},
+	{"migrate", "mix", 6}, {"migrate", "legacy-corpus", 3}, {"clone", "mix", 4}, {"clone", "overlapping-mapping", 5}, {"query", "mix", 5},
 	{"xobject", "mix", 4}, {"xobject", "casevariant-get", 3},
 	{"definition", "invalid-headers", 3},
 	{"services", "dtone-two-currencies", 2}, {"services", "luis-intent-ties", 2}, {"services", "luis-distinct-scores", 2}, {"services", "wit-entity-roles", 2},
@@ -93,7 +96,11 @@ func buildScenarios(seed uint64, n int) []*scenario {
 			}
 			s = migrateScenario(g, fw.feature, i, corpus)
 		case "clone":
-			s = cloneScenario(g, i)
+			if fw.feature == "overlapping-mapping" {
+				s = cloneOverlapScenario(g, i)
+			} else {
+				s = cloneScenario(g, i)
+			}
 		case "query":
 			s = queryScenario(g, i)
 		case "xobject":
@@ -214,6 +221,7 @@ func classify(s *scenario, outName string, a, b []byte) (string, string) {
 		// what reading an invalid definition reports (class of the fixed: line of f501005)
 		return "definition:validation-error-text", p
 	}
+	p = uuidSegment.ReplaceAllString(p, "<uuid>") // object members named by a UUID: the class must not depend on the UUID
 	cls := s.Family + "@" + outName
 	if p != "" {
 		cls += ":" + p
